@@ -14,11 +14,14 @@ abbrev Rng := Nat
 /-- `MIN_TRACING_LEVEL + 1` tracers -/
 def defaultTracers : Nat := 2
 
-/-- `primitives::setup` (+ the empty `update_msk` of `Covercrypt::setup` happens in `World`).
+/-- `primitives::setup(tracing_level, rng)` with `k = tracing_level + 1` tracers (+ the empty
+`update_msk` of `Covercrypt::setup` happens in `World`). `Covercrypt::setup` passes
+`MIN_TRACING_LEVEL`, i.e. `k = defaultTracers`; the model and every theorem over reachable worlds
+are stated for any `k` (a master key with more tracers can be obtained by deserialisation).
 Draws: the scalar `s` (names the authority), the tracers, the signing key. -/
-def setup (n : Rng) : Msk × Rng :=
-  ({ auth := n, ntracers := defaultTracers, users := [], secrets := [],
-     signKey := some (n + 1 + defaultTracers), structure_ := Struct.empty }, n + 2 + defaultTracers)
+def setup (n : Rng) (k : Nat) : Msk × Rng :=
+  ({ auth := n, ntracers := k, users := [], secrets := [],
+     signKey := some (n + 1 + k), structure_ := Struct.empty }, n + 2 + k)
 
 /-- `primitives::sign` -/
 def sign (msk : Msk) (id : UserId) (secrets : RevVec) : Option Sig :=
